@@ -119,16 +119,25 @@ def run (ctx):
         n = q.enclosing_stmt_node(g, writes[0][2]); fs = q.fact_strs(g, n)
         if short.startswith('set_nw_'):
           good = any('isinstance' in f and 'ipv4' in f and f.endswith(':truthy') for f in fs)
+          tgt_ = writes[0][0].value
+          if not good and isinstance(tgt_, ast.Name):
+            # the header object reached the store through copies (a lookup helper): every origin must have passed the type test
+            good = q.origins_satisfy(g, n, tgt_.id, lambda g_, n_, nm_: any(f.startswith('isinstance(%s, ' % nm_) and 'ipv4' in f and f.endswith(':truthy') for f in q.fact_strs(g_, n_)))
           ctx.ob('R-DOM', h, "IP rewrite only on IPv4 packets", good, "guarded by isinstance(.., ipv4)" if good else "facts %s" % fs, (swmod, writes[0][2]), 'D6')
         if short.startswith('set_tp_'):
-          good = any('isinstance' in f and 'ipv4' in f and f.endswith(':truthy') for f in fs)
-          # tcp or udp: the store is reachable both when tp is tcp and when it is udp, and not otherwise
-          tpn = norm(writes[0][0].value)
-          r_udp = n in q.reach_under(repo, swmod, g, q.Env(matchers=[(_isinst('udp'), True), (_isinst('tcp'), False), (_isinst('ipv4'), True), (_isinst('vlan'), False)]), sw)
-          r_tcp = n in q.reach_under(repo, swmod, g, q.Env(matchers=[(_isinst('udp'), False), (_isinst('tcp'), True), (_isinst('ipv4'), True), (_isinst('vlan'), False)]), sw)
-          r_no = n in q.reach_under(repo, swmod, g, q.Env(matchers=[(_isinst('udp'), False), (_isinst('tcp'), False), (_isinst('ipv4'), True), (_isinst('vlan'), False)]), sw)
-          ctx.ob('R-DOM', h, "port rewrite applies to TCP and UDP over IPv4 only", good and r_udp and r_tcp and not r_no,
-                 "reachable for udp and tcp, not otherwise" if (good and r_udp and r_tcp and not r_no) else "ipv4 guard %s, udp %s, tcp %s, other %s" % (good, r_udp, r_tcp, r_no), (swmod, writes[0][2]), 'D6')
+          # decided by evaluation over the header types: the store is reachable for UDP-over-IPv4 and TCP-over-IPv4, and for nothing else
+          def reach_ (true_set):
+            def isin (e): return isinstance(e, ast.Call) and call_name(e) == 'isinstance' and len(e.args) == 2
+            def val (e):
+              k = e.args[1]
+              names = [norm(x) for x in k.elts] if isinstance(k, ast.Tuple) else [norm(k)]
+              return any(x in true_set for x in names)
+            ms = [((lambda e, v=v: isin(e) and val(e) is v), v) for v in (True, False)]
+            return n in q.reach_under_cp(repo, swmod, g, q.Env({}, ms), sw)
+          r_udp = reach_({'ipv4', 'udp'}); r_tcp = reach_({'ipv4', 'tcp'}); r_no = reach_({'ipv4'}); r_noip = reach_({'udp', 'tcp'}) or reach_({'arp', 'udp'})
+          ok_ = r_udp and r_tcp and not r_no and not r_noip
+          ctx.ob('R-DOM', h, "port rewrite applies to TCP and UDP over IPv4 only", ok_,
+                 "reachable for udp and tcp over ipv4, not otherwise" if ok_ else "reachable: udp/ipv4 %s, tcp/ipv4 %s, other ipv4 payload %s, not ipv4 %s" % (r_udp, r_tcp, r_no, r_noip), (swmod, writes[0][2]), 'D6')
     if short in ('set_nw_src', 'set_nw_dst', 'set_nw_tos', 'set_tp_src', 'set_tp_dst'):
       # VLAN unwrap: nw = packet.payload; if isinstance(nw, vlan): nw = nw.payload
       unwrap = any(isinstance(t, ast.Name) and v is not None and norm(v) == t.id + '.payload' and
@@ -171,7 +180,7 @@ def run (ctx):
     if k == 'augassign' and isinstance(t, ast.Attribute) and t.attr in ('tx_packets', 'tx_bytes'):
       cnt[t.attr] = (q.enclosing_stmt_node(g, st), st)
   ctx.floor('emission site', len(emit), 1); ctx.floor('tx counters', len(cnt), 2)
-  clear = [(_cmp_names('port_no', 'in_port'), False), ('port_no not in self.ports', False), ('port_no in self.ports', True),
+  clear = [(_cmp_names('port_no', 'in_port'), False), (_port_notin, False), (_port_in, True), (_port_get, '<port>'),
            (_bit('OFPPC_NO_FWD'), 0), (_bit('OFPPC_PORT_DOWN'), 0), (_bit('OFPPS_LINK_DOWN'), 0),
            (lambda e: isinstance(e, ast.Compare) and norm(e.left).startswith('type(port_no)'), False)]
   def env_with (over):
@@ -186,7 +195,7 @@ def run (ctx):
   ctx.ob('R-DOM', op, "emission happens when no rule forbids it", good, "emit and counters reachable with all flags clear" if good else "emission unreachable even with all port flags clear", (swmod, rs), 'D2')
   BLOCK = [
     ("the ingress port (plain output)", [(_cmp_names('port_no', 'in_port'), True), ('allow_in_port', False)]),
-    ("a port that does not exist", [('port_no not in self.ports', True), ('port_no in self.ports', False), ('allow_in_port', False)]),
+    ("a port that does not exist", [(_port_notin, True), (_port_in, False), (_port_get, None), ('allow_in_port', False)]),
     ("a port with forwarding disabled (NO_FWD)", [(_bit('OFPPC_NO_FWD'), 32), ('allow_in_port', False)]),
     ("a port that is administratively down (PORT_DOWN)", [(_bit('OFPPC_PORT_DOWN'), 1), ('allow_in_port', False)]),
     ("a port whose link is down (LINK_DOWN)", [(_bit('OFPPS_LINK_DOWN'), 1), ('allow_in_port', False)]),
@@ -205,11 +214,17 @@ def run (ctx):
   ns = targets
   same = all(_equiv(g, ns[0], n) for n in ns[1:])
   ctx.ob('R-EFFECT', op, "tx counters are updated on exactly the paths that emit", same, "mutual (post)dominance of emit, tx_packets, tx_bytes" if same else "a counter is updated on a path that does not emit (or vice versa)", (swmod, rs), 'D2')
+  def tgt_text (t):
+    # stats.tx_bytes with stats = self.port_stats[port_no]
+    if isinstance(t, ast.Attribute) and isinstance(t.value, ast.Name):
+      d = q.single_def(rs, t.value.id)
+      if d is not None: return norm(d) + '.' + t.attr
+    return norm(t)
   for nm, (n, st) in cnt.items():
     if nm == 'tx_packets':
-      ctx.ob('R-AGREE', op, "tx_packets grows by one per emitted frame", isinstance(st.op, ast.Add) and norm(st.value) == '1' and 'port_stats[port_no]' in norm(st.target), norm(st), (swmod, st), 'D2')
+      ctx.ob('R-AGREE', op, "tx_packets grows by one per emitted frame", isinstance(st.op, ast.Add) and norm(st.value) == '1' and 'port_stats[port_no]' in tgt_text(st.target), norm(st), (swmod, st), 'D2')
     else:
-      ctx.ob('R-AGREE', op, "tx_bytes grows by the emitted frame's length", isinstance(st.op, ast.Add) and norm(st.value) in ('len(packet.pack())', 'len(packet)') and 'port_stats[port_no]' in norm(st.target), norm(st), (swmod, st), 'D2')
+      ctx.ob('R-AGREE', op, "tx_bytes grows by the emitted frame's length", isinstance(st.op, ast.Add) and norm(st.value) in ('len(packet.pack())', 'len(packet)') and 'port_stats[port_no]' in tgt_text(st.target), norm(st), (swmod, st), 'D2')
 
   # ---- D7 virtual ports --------------------------------------------------------
   g = q.cfg_of(op)
@@ -276,14 +291,20 @@ def run (ctx):
   lookup = g.nodes_with_call(lambda c: call_name(c) == 'entry_for_packet')
   ctx.floor('rx counters', len(rxc), 2); ctx.floor('table lookup site', len(lookup), 1)
   tg = [n for lst in rxc.values() for n, st in lst] + lookup
-  stp_def = q.single_def(rx.node, 'is_stp')
-  ctx.ob('R-AGREE', rx, "STP frames are recognised by the bridge group address", stp_def is not None and 'dst' in norm(stp_def) and '_STP_MAC' in norm(stp_def), "is_stp = %s" % norm(stp_def), rx, 'D3')
+  def stp_test (e):
+    return isinstance(e, ast.Compare) and len(e.ops) == 1 and isinstance(e.ops[0], (ast.Eq, ast.NotEq)) and \
+           any(norm(x) == '_STP_MAC' for x in (e.left, e.comparators[0])) and any(isinstance(x, ast.Attribute) and x.attr == 'dst' for x in (e.left, e.comparators[0]))
+  stp_cmp = [n for n in ast.walk(rx.node) if stp_test(n)]
+  ctx.ob('R-AGREE', rx, "STP frames are recognised by the bridge group address", len(stp_cmp) >= 1, "%s" % (norm(stp_cmp[0]) if stp_cmp else "no comparison of the destination with _STP_MAC"), rx, 'D3')
   for nr in (0, 4):
     for ns in (0, 8):
       for stp in (False, True):
-        env = q.Env({'is_stp': stp, 'port is None': False, 'self.config_flags & OFPC_FRAG_MASK': 0},
-                    [(_bit('OFPPC_NO_RECV'), nr), (_bit('OFPPC_NO_RECV_STP'), ns)])
-        r = q.reach_under(repo, swmod, g, env, sw)
+        ms = [(_bit('OFPPC_NO_RECV'), nr), (_bit('OFPPC_NO_RECV_STP'), ns),
+              ((lambda e: stp_test(e) and isinstance(e.ops[0], ast.Eq)), stp), ((lambda e: stp_test(e) and isinstance(e.ops[0], ast.NotEq)), not stp),
+              ((lambda e: isinstance(e, ast.Attribute) and e.attr == 'config' and norm(e.value) in ('port', 'self.ports[in_port]', 'self.ports.get(in_port)')), nr | ns),
+              (_port_get, '<port>'), (_port_in, True), (_port_notin, False)]
+        env = q.Env({'port is None': False, 'self.config_flags & OFPC_FRAG_MASK': 0}, ms)
+        r = q.reach_under_cp(repo, swmod, g, env, sw)
         accept = not ((nr and not stp) or (ns and stp))
         got = [t for t in tg if t in r]
         good = (len(got) == len(tg)) if accept else not got
@@ -292,10 +313,15 @@ def run (ctx):
                ("a frame that must be dropped still reaches `%s` (line %s): it is counted / looked up / forwarded" % (got[0].text(40), got[0].line) if not accept else "a frame that must be accepted is dropped"),
                rx, 'D3')
   # fragments dropped in FRAG_DROP mode
-  env = q.Env({'is_stp': False, 'port is None': False, 'frag_mode == OFPC_FRAG_DROP': True, 'ipp': True},
-              [(_bit('OFPPC_NO_RECV'), 0), (_bit('OFPPC_NO_RECV_STP'), 0), (_bit('OFPC_FRAG_MASK'), 1),
+  fdrop = ofreg.const_value(repo, swmod, 'OFPC_FRAG_DROP')
+  env = q.Env({'is_stp': False, 'port is None': False},
+              [(_bit('OFPPC_NO_RECV'), 0), (_bit('OFPPC_NO_RECV_STP'), 0), (_bit('OFPC_FRAG_MASK'), fdrop),
+               ((lambda e: stp_test(e)), False),
+               ((lambda e: isinstance(e, ast.Attribute) and e.attr == 'config' and norm(e.value) in ('port', 'self.ports[in_port]', 'self.ports.get(in_port)')), 0),
+               (_port_get, '<port>'), (_port_in, True), (_port_notin, False),
+               ((lambda e: isinstance(e, ast.Call) and call_name(e) == 'find' and e.args and norm(e.args[0]) in ('ipv4', "'ipv4'")), '<ipv4 header>'),
                (lambda e: isinstance(e, ast.BoolOp) and 'MF_FLAG' in norm(e), True), (_bit('MF_FLAG'), 1)])
-  r = q.reach_under(repo, swmod, g, env, sw)
+  r = q.reach_under_cp(repo, swmod, g, env, sw)
   got = [t for t in tg if t in r]
   ctx.ob('R-DOM', rx, "fragments are dropped before counting in FRAG_DROP mode", not got, "unreachable" if not got else "fragment reaches %s in drop mode" % got[0].text(40), rx, 'D3')
   for nm, lst in rxc.items():
@@ -328,15 +354,41 @@ def run (ctx):
   cs = [c for c in calls_in(pm.node) if call_name(c) == '_set_port_config_bit']
   if cs:
     c = cs[0]
-    good = len(c.args) == 3 and norm(c.args[1]) == 'bit' and norm(c.args[2]) == '%s.config & bit' % pmsg
+    good = len(c.args) == 3 and isinstance(c.args[1], ast.Name) and norm(c.args[2]) in ('%s.config & %s' % (pmsg, norm(c.args[1])), '%s & %s.config' % (norm(c.args[1]), pmsg))
     ctx.ob('R-AGREE', pm, "each masked bit is set to the message's value for that bit", good, norm(c), (swmod, c), 'D4')
     n = q.enclosing_stmt_node(g, c); fs = q.fact_strs(g, n)
-    ctx.ob('R-DOM', pm, "only bits selected by the mask are changed", 'mask & bit:truthy' in fs, "guarded by mask & bit" if 'mask & bit:truthy' in fs else "facts %s" % fs, (swmod, c), 'D4')
+    guarded = any(('mask & %s:truthy' % norm(c.args[1])) in f or ('%s & mask:truthy' % norm(c.args[1])) in f for f in fs) if len(c.args) == 3 else False
+    if guarded:
+      ctx.ok('R-DOM', pm, "only bits selected by the mask are changed", "guarded by mask & bit", (swmod, c), 'D4')
+    else:
+      # is the bit computed from the mask (e.g. lowest set bit of the remaining mask)?  Then the selection is arithmetic,
+      # which this analysis does not evaluate: undecided.  A bit that does not depend on the mask at all and is not tested
+      # against it is a violation.
+      def depends_on_mask (e, depth=0):
+        if any(isinstance(x, ast.Attribute) and x.attr == 'mask' for x in ast.walk(e)): return True
+        if depth > 4: return False
+        for nm in q.names_in(e):
+          for v_, st_, k_ in q.reaching_assign(pm.node, nm):
+            src = v_ if v_ is not None else (st_.value if isinstance(st_, ast.AugAssign) else None)
+            if src is not None and depends_on_mask(src, depth + 1): return True
+        return False
+      if len(c.args) == 3 and depends_on_mask(c.args[1]):
+        ctx.undecided('R-DOM', pm, "only bits selected by the mask are changed", "the bit is derived from the mask arithmetically (`%s`); not evaluated" % norm(c.args[1]), (swmod, c), 'D4')
+      else:
+        ctx.bad('R-DOM', pm, "only bits selected by the mask are changed", "the configuration bit passed to _set_port_config_bit neither depends on the message's mask nor is tested against it (facts %s): bits outside the mask are overwritten" % fs, (swmod, c), 'D4')
 
 def _isinst (clsname):
   def m (e):
     return isinstance(e, ast.Call) and call_name(e) == 'isinstance' and len(e.args) == 2 and norm(e.args[1]) == clsname
   return m
+
+def _ports_tbl (e): return isinstance(e, ast.Attribute) and e.attr == 'ports'
+def _port_notin (e): return isinstance(e, ast.Compare) and len(e.ops) == 1 and isinstance(e.ops[0], ast.NotIn) and _ports_tbl(e.comparators[0])
+_port_notin._key = ('port', 'notin')
+def _port_in (e): return isinstance(e, ast.Compare) and len(e.ops) == 1 and isinstance(e.ops[0], ast.In) and _ports_tbl(e.comparators[0])
+_port_in._key = ('port', 'in')
+def _port_get (e): return isinstance(e, ast.Call) and call_name(e) == 'get' and _ports_tbl(e.func.value) and len(e.args) == 1
+_port_get._key = ('port', 'get')
 
 def _cmp_names (a, b):
   def m (e):
